@@ -32,7 +32,12 @@ LEVEL_TEXT = (
     "hands to the backend exactly base ++ normalize(cwd0, arg), the location the permission was looked up for), "
     "C04_check_worker_paths_sound and the instance obligations C04_workers_use_authorised_path / C04_transfer_target_today on the "
     "regenerated Gen/Resolve.v (the workers use the handler's real_path, bound once by get_paths(connection, rest) before the task is "
-    "created; they never resolve again); C04_late_resolution_breaks shows the premise is needed. The session-level statement (a "
+    "created; they never resolve again); C04_late_resolution_breaks shows the premise is needed. Histories with CWD/CDUP and "
+    "re-logins (also completed by USER alone) between requests: C04_requests_use_current_table (every request of every history is "
+    "decided by the nearest entry, in the table of the user logged in now, of normalize(cwd now, arg)); closed checks on the "
+    "regenerated source: C04_lookup_asks_current_user (the wrapper asks connection.user on every call, no memo) and "
+    "C04_check_and_use_not_separated (PathPermissions is the innermost decorator and every body starts with its own get_paths, so "
+    "no suspension separates decision and use). The session-level statement (a "
     "denied request queues exactly one 550 and leaves tree and cwd unchanged) is validated at wire level only here (also with "
     "commands between 150 and the data connection) and is left to the Session model."
 )
@@ -929,7 +934,11 @@ def correspondence(ctx):
         "USER nobody, CWD+CDUP, PWD, re-login+CWD, CWD+re-login} placed between the 150 reply and the arrival of the data "
         "connection (quick: a third of the product, every triple under one table; thorough: all 4050); the object written / "
         "read / listed must be the one the lookup was made on (tree, bytes, names, recorded backend path), a denied request "
-        "must be 550, leave the tree unchanged and send nothing. The "
+        "must be 550, leave the tree unchanged and send nothing; (sessions) one control connection, 2-4 logins among 4 accounts "
+        "with different tables (two need no PASS: password-less, anonymous), the same block of requests after every login, decided "
+        "by the current user's table; (pipelined) '<DELE|MKD|RMD|RNFR> rel' and 'CWD x|CDUP' in ONE segment on a backend whose "
+        "stat-like calls take virtual time below a prefix, 16 cases x 5 tables x 3 delay settings: the tree may only change where "
+        "the nearest entry is writable, the cwd only move to a readable directory. The "
         "independent longest-prefix oracle runs on every real output. Non-trivial = distinct input."
     )
     xcheck = []
